@@ -34,14 +34,16 @@ func init() {
 		Assumptions: []string{
 			"instances are compared only when they hold the same sharder set",
 			"all instances of a run build their nodes the same way (with or without the byte form of the id)",
+			"with several magic blocks the replicators of a round are those of the magic block Chain.GetMagicBlock(round) serves (view-change offset included); instances are compared on that magic block's sharder set only",
+			"an instance uses one node object per sharder in all its magic blocks (as the node registry does in production)",
 		},
 	})
 }
 
-// cfg: inst, sharders, scheme, repl (NumReplicators), idbytes, minactive, inactive (bit mask)
+// cfg: mbs (1..3 magic blocks whose sharder sets differ), gap (distance of their starting rounds), inst, sharders, scheme, repl (NumReplicators), idbytes, minactive, inactive (bit mask)
 // steps:
-//   add    A=inst I=[sharder]
-//   query  I=[hash#, round]     every instance computes the replicators of block hash #hash
+//   add    A=inst I=[sharder, magic block]
+//   query  I=[hash#, round]     every instance computes the replicators of block hash #hash at that round (mostly start-2 .. start+6 of a later magic block)
 
 func genC42(seed uint64, tier string) *sim.Plan {
 	root := sim.NewRNG(seed)
@@ -65,18 +67,27 @@ func genC42(seed uint64, tier string) *sim.Plan {
 	default:
 		repl = nS + sw.Range(1, 3)
 	}
+	nMB := sw.Pick([]int{0, 3, 4, 2}) // 1..3 magic blocks; from the second on the sharder set changes (view change)
+	gap := int64([]int{7, 20, 300}[sw.Intn(3)])
 	p := &sim.Plan{Cfg: map[string]int64{
+		"mbs": int64(nMB), "gap": gap,
 		"inst": int64(nInst), "sharders": int64(nS), "scheme": int64(sw.Intn(2)), "repl": int64(repl),
 		"idbytes": int64(sw.Pick([]int{1, 3})), "minactive": int64([]int{0, 25, 100}[sw.Intn(3)]), "inactive": int64(sw.Uint64() & sw.Uint64() & 0xffff),
 	}}
-	seqs := miSchedule(net, nInst, nS, sw.Bool(0.85), []float64{0, 0.15, 0.4}[sw.Intn(3)])
+	facts := c42facts(seed, nS, nMB)
+	seqs := miSchedule(net, nInst, len(facts), sw.Bool(0.85), []float64{0, 0.15, 0.4}[sw.Intn(3)])
 	nH := r.Range(1, 6)
 	q := func() sim.Step {
-		return sim.Step{Op: "query", I: []int64{int64(r.Intn(nH)), int64(r.Range(1, 3000))}}
+		rn := int64(r.Range(1, 3000))
+		if nMB > 1 && r.Bool(0.8) {
+			// the rounds around a view change: start-2 .. start+6 (the offset window of GetMagicBlock lies inside)
+			rn = c42start(r.Range(1, nMB-1), gap) + int64(r.Range(-2, 6))
+		}
+		return sim.Step{Op: "query", I: []int64{int64(r.Intn(nH)), rn}}
 	}
 	pMid := []float64{0, 0.1, 0.3}[sw.Intn(3)]
 	for _, a := range miInterleave(net, seqs) {
-		p.Steps = append(p.Steps, sim.Step{Op: "add", A: a[0], I: []int64{int64(a[1])}})
+		p.Steps = append(p.Steps, sim.Step{Op: "add", A: a[0], I: []int64{int64(facts[a[1]][1]), int64(facts[a[1]][0])}})
 		if r.Bool(pMid) {
 			p.Steps = append(p.Steps, q())
 		}
@@ -87,6 +98,36 @@ func genC42(seed uint64, tier string) *sim.Plan {
 	return p
 }
 
+// c42start is the starting round of magic block #j (0 for the first, beyond ViewChangeOffset for the others).
+func c42start(j int, gap int64) int64 {
+	if j == 0 {
+		return 0
+	}
+	return chain.ViewChangeOffset + 2 + int64(j)*gap
+}
+
+// c42member says whether sharder k belongs to magic block j: every magic block leaves out about a quarter of
+// the identities, another quarter each time, so consecutive sharder sets differ (added / removed / replaced).
+func c42member(seed uint64, j, k, nS int) bool {
+	if k == j%nS {
+		return true // never empty
+	}
+	return sim.Hash64(fmt.Sprint(seed), "member", fmt.Sprint(j), fmt.Sprint(k))%4 != 0
+}
+
+// c42facts lists the (magic block, sharder) membership facts the network delivers.
+func c42facts(seed uint64, nS, nMB int) [][2]int {
+	var f [][2]int
+	for j := 0; j < nMB; j++ {
+		for k := 0; k < nS; k++ {
+			if c42member(seed, j, k, nS) {
+				f = append(f, [2]int{j, k})
+			}
+		}
+	}
+	return f
+}
+
 func execC42(env *sim.Env, p *sim.Plan) *sim.Result {
 	miWorld()
 	tr := sim.NewTrace()
@@ -94,6 +135,8 @@ func execC42(env *sim.Env, p *sim.Plan) *sim.Result {
 	root := sim.NewRNG(p.Seed)
 	nInst := max(int(p.CfgInt("inst", 2)), 1)
 	nS := max(int(p.CfgInt("sharders", 3)), 1)
+	nMB := max(int(p.CfgInt("mbs", 1)), 1)
+	gap := max(p.CfgInt("gap", 20), 1)
 	repl := int(p.CfgInt("repl", 1))
 	withBytes := p.CfgInt("idbytes", 1) == 1
 	inactive := uint64(p.CfgInt("inactive", 0))
@@ -103,17 +146,25 @@ func execC42(env *sim.Env, p *sim.Plan) *sim.Result {
 		tr.Violate(&sim.Violation{Prop: "C42", Oracle: oracle, Sig: "C42/" + sig, Detail: detail})
 	}
 	type inst struct {
-		c    *chain.Chain
-		pool *node.Pool
+		c     *chain.Chain
+		mbs   []*block.MagicBlock
+		nodes map[int]*node.Node // one node object per sharder and instance, shared by the instance's magic blocks
 	}
 	insts := make([]*inst, nInst)
 	for i := range insts {
 		c := miChain(&chain.ConfigData{NumReplicators: repl, MinActiveReplicators: int(p.CfgInt("minactive", 0)), MinActiveSharders: 25, MinGenerators: 1, ThresholdByCount: 66})
-		mb := block.NewMagicBlock()
-		mb.Miners = node.NewPool(node.NodeTypeMiner)
-		mb.Sharders = node.NewPool(node.NodeTypeSharder)
-		c.SetMagicBlock(mb)
-		insts[i] = &inst{c: c, pool: mb.Sharders}
+		in := &inst{c: c, nodes: map[int]*node.Node{}}
+		for j := 0; j < nMB; j++ {
+			mb := block.NewMagicBlock()
+			mb.Miners = node.NewPool(node.NodeTypeMiner)
+			mb.Sharders = node.NewPool(node.NodeTypeSharder)
+			mb.StartingRound = c42start(j, gap)
+			mb.MagicBlockNumber = int64(j + 1)
+			mb.Hash = miHash(p.Seed, "mb", j)
+			c.SetMagicBlock(mb)
+			in.mbs = append(in.mbs, mb)
+		}
+		insts[i] = in
 	}
 	arr := newArrivals(tr, nInst)
 	byHashSet := map[string]string{}
@@ -126,16 +177,25 @@ func execC42(env *sim.Env, p *sim.Plan) *sim.Result {
 			if k < 0 {
 				k = -k
 			}
-			dup := arr.arrive(i, k)
-			nd := ids[k].newNode(node.NodeTypeSharder, withBytes)
+			j := int(st.Int(1, 0)) % nMB
+			if j < 0 {
+				j = -j
+			}
+			in := insts[i]
+			dup := arr.arrive(i, j*nS+k)
+			nd := in.nodes[k]
+			if nd == nil || nMB == 1 {
+				nd = ids[k].newNode(node.NodeTypeSharder, withBytes)
+				in.nodes[k] = nd
+			}
 			if inactive>>uint(k%16)&1 == 1 {
 				nd.Status = node.NodeStatusInactive
 			}
-			if err := insts[i].pool.AddNode(nd); err != nil {
+			if err := in.mbs[j].Sharders.AddNode(nd); err != nil {
 				viol("add-node", "add/error", err.Error())
 				continue
 			}
-			tr.Event("add i=%d s=%d dup=%v size=%d", i, k, dup, insts[i].pool.Size())
+			tr.Event("add i=%d mb=%d s=%d dup=%v size=%d", i, j, k, dup, in.mbs[j].Sharders.Size())
 			tr.Outcome(fmt.Sprintf("add/dup=%v", dup))
 
 		case "query":
@@ -148,16 +208,42 @@ func execC42(env *sim.Env, p *sim.Plan) *sim.Result {
 				tr.Probe("query_with_lagging_instance")
 			}
 			for i, in := range insts {
-				n := in.pool.Size()
+				// the magic block in force for the round, as every caller obtains it
+				var inForce *block.MagicBlock
+				if pn := guard(func() { inForce = in.c.GetMagicBlock(rn) }); pn != "" {
+					viol("replicators", "repl/panic", pn)
+					continue
+				}
+				jf := -1
+				for j, mb := range in.mbs {
+					if mb == inForce {
+						jf = j
+					}
+				}
+				if jf < 0 {
+					viol("replicators", "repl/unknown-magic-block", fmt.Sprintf("inst %d round %d served by a magic block the simulator never stored", i, rn))
+					continue
+				}
+				pool := inForce.Sharders
+				n := pool.Size()
 				if n == 0 {
 					tr.Outcome("query/empty-pool")
 					continue
 				}
 				have := make([]int, 0, n)
-				for k := range arr.have[i] {
-					have = append(have, k)
+				for k := 0; k < nS; k++ {
+					if arr.have[i][jf*nS+k] {
+						have = append(have, k)
+					}
 				}
-				sort.Ints(have)
+				setKey := fmt.Sprint(jf, ":", have)
+				if raw := in.c.GetMagicBlockNoOffset(rn); raw != inForce {
+					tr.Probe("round_in_view_change_offset_window")
+					a, b := sortedCopy(raw.Sharders.Keys()), sortedCopy(pool.Keys())
+					if len(a) > 0 && strings.Join(a, ",") != strings.Join(b, ",") {
+						tr.Probe("offset_window_with_changed_sharder_set")
+					}
+				}
 				b := block.NewBlock("", rn)
 				b.Hash = h
 				var set, viaHash, viaNodes []string
@@ -168,7 +254,7 @@ func execC42(env *sim.Env, p *sim.Plan) *sim.Result {
 				nodesDisagree := false
 				pnc := guard(func() {
 					for _, k := range have {
-						nd := in.pool.GetNode(ids[k].id)
+						nd := pool.GetNode(ids[k].id)
 						if nd == nil {
 							viol("pool", "pool/node-missing", fmt.Sprintf("inst %d lost sharder %d", i, k))
 							return
@@ -233,15 +319,15 @@ func execC42(env *sim.Env, p *sim.Plan) *sim.Result {
 				}
 				crb := in.c.CanReplicateBlock(b)
 				val = fmt.Sprintf("{%s} canrepl=%v", val, crb)
-				key := h + "|" + arr.setKey(i)
+				key := h + "|" + setKey
 				if prev, ok := byHashSet[key]; ok {
 					if prev != val {
-						viol("agreement", "repl/differs-across-instances", fmt.Sprintf("inst %d hash %s sharders{%s} R=%d: %s, another instance computed %s", i, short(h), arr.setKey(i), repl, val, prev))
+						viol("agreement", "repl/differs-across-instances", fmt.Sprintf("inst %d hash %s sharders{%s} R=%d: %s, another instance computed %s", i, short(h), setKey, repl, val, prev))
 					}
 				} else {
 					byHashSet[key] = val
 				}
-				tr.Event("query i=%d h=%s rn=%d set={%s} R=%d -> %s", i, short(h), rn, arr.setKey(i), repl, val)
+				tr.Event("query i=%d h=%s rn=%d mb=%s R=%d -> %s", i, short(h), rn, setKey, repl, val)
 				tr.Outcome(fmt.Sprintf("query/%s", map[bool]string{true: "all", false: "subset"}[len(set) == n]))
 				tr.State("q:" + val)
 			}
